@@ -25,6 +25,7 @@ struct Mode_ {
   std::string name;  // "mem", "db", "db+force", "db+k1", ...
   bool useDB = false, resolveForce = false, syncDefault = false;
   int keyset = 0;    // hostile key spellings (C03)
+  int depth = 0;     // "+dN": explore histories of exactly this depth bound, default schedules only (request-mode family)
 };
 static std::map<char, std::string> keyset(int n) {
   switch (n) {
@@ -50,6 +51,7 @@ static bool parseMode(const std::string& s, Mode_& m) {
     else if (t == "force") m.resolveForce = true;
     else if (t == "sync") m.syncDefault = true;
     else if (t.size() == 2 && t[0] == 'k') m.keyset = t[1] - '0';
+    else if (t.size() == 2 && t[0] == 'd' && t[1] >= '1' && t[1] <= '9') m.depth = t[1] - '0';
     else return false;
   }
   return true;
@@ -122,6 +124,23 @@ static std::vector<std::string> staticFamily() {
   for (auto& ra : reqLists("xy", 2))
     for (auto& rb : reqLists("xya", 2))
       for (auto& rc : reqLists("xyab", 2)) out.push_back("a:" + ra + "; b:" + rb + "; c:" + rc);
+  return out;
+}
+// request-mode family: c requests a, b and the leaf z in every order with every combination of
+// normal / single-use / must-follow modes (162 worlds); a and b each follow their own leaf
+static std::vector<std::string> modesFamily() {
+  std::vector<std::string> out;
+  const char* modes[] = {"", "/S", "/M"};
+  std::string keys = "abz";
+  std::sort(keys.begin(), keys.end());
+  do {
+    for (int m0 = 0; m0 < 3; ++m0)
+      for (int m1 = 0; m1 < 3; ++m1)
+        for (int m2 = 0; m2 < 3; ++m2) {
+          if (!m0 && !m1 && !m2) continue;
+          out.push_back(std::string("a: x; b: y; c: ") + keys[0] + modes[m0] + " " + keys[1] + modes[m1] + " " + keys[2] + modes[m2]);
+        }
+  } while (std::next_permutation(keys.begin(), keys.end()));
   return out;
 }
 // all directed graphs on n keys (a..), static requests in ascending key order
@@ -306,6 +325,15 @@ struct Explorer {
                 res.count("cancel_points");
                 visit(hc, o, node.cancels + 1);
               }
+              // the other way a build is interrupted: a database write reports an error
+              if (cfg.useDB && !cfg.capi)
+                for (int i = 1; i <= base.last.writes; ++i) {
+                  History hc = hh;
+                  hc.back().failWriteAt = i;
+                  RunOut o = run(hc);
+                  res.count("db_write_error_points");
+                  visit(hc, o, node.cancels + 1);
+                }
             }
           }
         }
@@ -498,10 +526,12 @@ static void exploreWorld(const std::string& spec, const std::string& modeName, v
       for (int i = 0; i < (int)(sizeof(kCurated) / sizeof(kCurated[0])); ++i) if (spec == kCurated[i]) idx = i;
       if (idx < 0 || idx >= 12) withCancel = false;
     }
-    ex.bfs(T ? 5 : 4, 1, withCancel ? 1 : 0, false);
+    if (m.depth) ex.bfs(m.depth + (T ? 1 : 0), 0, 0, false);
+    else ex.bfs(T ? 5 : 4, 1, withCancel ? 1 : 0, false);
   } else if (p == "C02") {
     ex.cfg.checkC01 = false; ex.cfg.checkProto = false; ex.cfg.checkC07 = false; ex.cfg.checkPersist = false;
-    ex.bfs(T ? 5 : 4, T ? 1 : 0, 1, false);
+    if (m.depth) ex.bfs(m.depth + (T ? 1 : 0), 0, 0, false);
+    else ex.bfs(T ? 5 : 4, T ? 1 : 0, 1, false);
   } else if (p == "C03") {
     ex.cfg.checkC01 = m.keyset != 0; ex.cfg.checkC02 = false; ex.cfg.checkProto = false; ex.cfg.checkC07 = false;
     {
@@ -542,6 +572,16 @@ static void exploreWorld(const std::string& spec, const std::string& modeName, v
           History h = pr.first;
           h.push_back(ev);
           if (ev.kind == 'b') ex.allSchedules(h, T ? 200000 : 20000);
+          if (ev.kind == 'b' && m.useDB) {
+            // a database write error at every write of the build, under every delivery schedule with <= 1 deviation:
+            // the build has to return (no wait that nothing can satisfy), the protocol oracles stay on
+            RunOut base = ex.run(h, false, false);
+            for (int i = 1; i <= base.last.writes; ++i) {
+              History hf = h;
+              hf.back().failWriteAt = i;
+              ex.forSchedules(hf, 1, [&](const History&, const RunOut&) { res.count("db_write_error_schedules"); });
+            }
+          }
           if (d < pd) {
             RunOut o = ex.run(h);
             if (!o.dead && seen.insert(o.key).second) next.push_back({h, o.ext});
@@ -824,6 +864,8 @@ int main(int argc, char** argv) {
       size_t stride = T ? 1 : 17;
       for (size_t i = (size_t)(args.seed % stride); i < fam.size(); i += stride) work.push_back({fam[i], "mem"});
     }
+    if (p == "C01" || p == "C02")
+      for (auto& wd : modesFamily()) { work.push_back({wd, "mem+d3"}); work.push_back({wd, "db+d3"}); }
   }
 
   g_current = (char*)mmap(nullptr, 65536, PROT_READ | PROT_WRITE, MAP_SHARED | MAP_ANONYMOUS, -1, 0);
